@@ -34,9 +34,9 @@ def stepSizes (nspec nx ny nz : Nat) : List Nat := 4 :: (List.replicate nspec (s
 /-- `max(nz, 1)` on a signed word -/
 def layers (w : Word) : Nat := if w = 0 ∨ w ≥ 2147483648 then 1 else w
 
-/-- the projection code must be one of 0..3, and a polar file (3) must have its pole at +-90 degrees -/
-def projOk (iproj plat : Word) : Bool :=
-  decide (iproj ≤ 2) || (iproj == 3 && (plat == 0x42B40000 || plat == 0xC2B40000))
+/-- the projection code must be one of 0..3 (a polar file, 3, may have its origin at any latitude: the reader takes the
+hemisphere from it) -/
+def projOk (iproj _plat : Word) : Bool := decide (iproj ≤ 3)
 
 def stepOf (rs : List (List Word)) : BStep := ⟨rs.headD [], rs.drop 1⟩
 
